@@ -1172,3 +1172,9 @@ val chunks_agree : n -> (n, bytes) gmap -> (n * bytes) list -> mismatch list
 val obj_agree : n -> obj -> aobj -> mismatch list
 
 val cmp_state : afs -> abs_result -> mismatch list
+
+val need_blocks : call -> n
+
+val needs_inode : call -> bool
+
+val nospace_plausible : call -> n -> n -> bool
